@@ -55,16 +55,75 @@ func main() {
 	}
 	var facts []fact
 	var undoKinds []string
+	entryFields := map[string][]string{}   // journal entry struct -> field names in declaration order
+	undoUses := map[string]map[string]bool{} // journal entry struct -> fields its undo method reads
+	var literals []string                    // "type:field,field" per composite literal of a journal entry type
 	for _, pkg := range pkgs {
 		for _, f := range pkg.Files {
 			for _, d := range f.Decls {
+				if gd, ok := d.(*ast.GenDecl); ok && gd.Tok == token.TYPE {
+					for _, sp := range gd.Specs {
+						ts := sp.(*ast.TypeSpec)
+						st, ok := ts.Type.(*ast.StructType)
+						if !ok || !strings.HasSuffix(ts.Name.Name, "Change") {
+							continue
+						}
+						var fs []string
+						for _, fl := range st.Fields.List {
+							for _, n := range fl.Names {
+								fs = append(fs, n.Name)
+							}
+						}
+						entryFields[ts.Name.Name] = fs
+					}
+				}
 				fd, ok := d.(*ast.FuncDecl)
 				if !ok || fd.Body == nil {
 					continue
 				}
 				rn := recvName(fd)
+				// composite literals of journal entry types, wherever they are built
+				ast.Inspect(fd.Body, func(n ast.Node) bool {
+					cl, ok := n.(*ast.CompositeLit)
+					if !ok {
+						return true
+					}
+					id, ok := cl.Type.(*ast.Ident)
+					if !ok || !strings.HasSuffix(id.Name, "Change") {
+						return true
+					}
+					var keys []string
+					keyed := false
+					for _, e := range cl.Elts {
+						if kv, ok := e.(*ast.KeyValueExpr); ok {
+							keyed = true
+							if k, ok := kv.Key.(*ast.Ident); ok {
+								keys = append(keys, k.Name)
+							}
+						}
+					}
+					if !keyed {
+						keys = []string{fmt.Sprintf("#%d", len(cl.Elts))}
+					}
+					literals = append(literals, id.Name+":"+strings.Join(keys, ","))
+					return true
+				})
 				if fd.Name.Name == "undo" && rn != "" {
 					undoKinds = append(undoKinds, rn)
+					recv := ""
+					if len(fd.Recv.List[0].Names) > 0 {
+						recv = fd.Recv.List[0].Names[0].Name
+					}
+					uses := map[string]bool{}
+					ast.Inspect(fd.Body, func(n ast.Node) bool {
+						if sel, ok := n.(*ast.SelectorExpr); ok {
+							if id, ok := sel.X.(*ast.Ident); ok && id.Name == recv {
+								uses[sel.Sel.Name] = true
+							}
+						}
+						return true
+					})
+					undoUses[rn] = uses
 					continue
 				}
 				if rn != "AccountDB" && rn != "accountObject" {
@@ -150,6 +209,35 @@ func main() {
 	}
 	sb.WriteString("]\n\n")
 	fmt.Fprintf(&sb, "def undoKinds : List String := %s\n\n", q(undoKinds))
+	var names []string
+	for n := range entryFields {
+		names = append(names, n)
+	}
+	sort.Strings(names)
+	sb.WriteString("/-- fields of every journal entry struct, in declaration order -/\ndef entryFields : List (String × List String) := [\n")
+	for i, n := range names {
+		sep := ","
+		if i == len(names)-1 {
+			sep = ""
+		}
+		fmt.Fprintf(&sb, "  (%q, %s)%s\n", n, q(entryFields[n]), sep)
+	}
+	sb.WriteString("]\n\n/-- the fields each undo method reads (in declaration order) -/\ndef undoUses : List (String × List String) := [\n")
+	for i, n := range names {
+		sep := ","
+		if i == len(names)-1 {
+			sep = ""
+		}
+		var us []string
+		for _, f := range entryFields[n] {
+			if undoUses[n][f] {
+				us = append(us, f)
+			}
+		}
+		fmt.Fprintf(&sb, "  (%q, %s)%s\n", n, q(us), sep)
+	}
+	sort.Strings(literals)
+	fmt.Fprintf(&sb, "]\n\n/-- every composite literal of a journal entry type with the fields it sets (#n = n positional values) -/\ndef literals : List String := %s\n\n", q(literals))
 	sb.WriteString("end Rangers.Generated.JournalFacts\n")
 	if err := os.WriteFile(out, []byte(sb.String()), 0644); err != nil {
 		fmt.Fprintln(os.Stderr, err)
